@@ -21,13 +21,20 @@ LEVEL_TEXT = ("The decision logic of resolve_local_links / embed_local_links_as_
               "theorems: a URL is left untouched iff it has a scheme, a network location or an empty path; an asset path is produced only for an existing "
               "file whose canonical path lies below the canonical root and equals assets + the path relative to the root, hence contains no '..'; "
               "otherwise the corresponding error. The model is compared with the real functions on real directories (files, symlinks inside/outside, "
-              "every link spelling); the oracle checks byte-identical copies, data URLs and that no byte of an outside canary file reaches the output.")
+              "every link spelling); the oracle checks byte-identical copies, data URLs and that no byte of an outside canary file reaches the output. "
+              "The data URL itself (C16c): b64encode / dataUrl model base64.b64encode and the f-string of embed_local_links_as_data_urls; b64decode_encode, "
+              "dataUrl_roundtrip, parseDataUrlCanon_eq_some_iff (an RFC 2397 / RFC 4648 reader gets back exactly the media type and the file's bytes, for every "
+              "byte string of every length), b64encode_injective, dataUrl_only_file_bytes, dataUrl_attribute_verbatim (nothing in it is changed by the HTML "
+              "serialisation); the media type: CPython's guess_type rule over its regenerated built-in tables (guessTypeWith_mem, typed_file_has_no_encoding, "
+              "compressed_file_is_octet_stream: a compressed file is never labelled with the type of what it unpacks to - the repaired behaviour; "
+              "old_rule_mislabels_witness), compared with the real functions on real files and with mimetypes on the machine's and the built-in tables.")
 LEVEL_NOTE = ("Path resolution is modelled too (C16b: an abstract file system with symbolic links, CPython's Path.resolve() including what it does at a loop, "
               "percent-decoding, component-wise containment): asset_is_inside_root and no_outside_bytes hold for every file system, root and URL; the model found "
               "that the pinned code served outside bytes behind a symlink loop (single_resolve_leaks) and that a first repair was insufficient "
-              "(double_resolve_leaks); the repaired code is what is modelled and compared on generated directory trees. Partial: copyfile being byte-exact, mimetypes and lxml's rewrite_links finding every link are the file "
-              "system's and the libraries' behaviour: observed by the oracle, not proved. Trusted: Lean kernel; urlsplit/unquote as the harness applies them.")
-LEAN_MODULES = ["RecipeGrid.Props.C16", "RecipeGrid.Props.C16b"]
+              "(double_resolve_leaks); the repaired code is what is modelled and compared on generated directory trees. Partial: copyfile being byte-exact and lxml's rewrite_links finding every link are the file "
+              "system's and the library's behaviour: observed by the oracle, not proved; mimetypes.guess_type and base64 are modelled (C16c) and tied by exact "
+              "correspondence, the platform's mime.types additions travel with the request. Trusted: Lean kernel; urlsplit/unquote as the harness applies them.")
+LEAN_MODULES = ["RecipeGrid.Props.C16", "RecipeGrid.Props.C16b", "RecipeGrid.Props.C16c"]
 TRUSTED_EXTRA = ["Model/Fs.lean as a description of CPython 3.12's pathlib.Path.resolve() / os.path.realpath(strict=False) and of the kernel's path lookup "
                  "(symbolic links, ELOOP, 40-link limit): validated only by the correspondence on generated directory trees; the model gives up ('fuel') after "
                  "4096 link expansions; '//' prefixes, relative roots and urlsplit's ValueError cases are not modelled"]
@@ -100,7 +107,30 @@ def model_request(root, source, from_path, url, lookup):
                     sexp.b(fs.is_file()), sexp.opt(lambda x: sexp.tag("lk", sexp.s(x[0]), sexp.b(x[1])), lk), sexp.s(from_path), sexp.s("/assets")), parts
 
 
+def dataurl_correspondence(run):
+    """C16c: base64, data URLs, guess_type and lxml's attribute serialisation against Model/DataUrl.lean (harness/dataurl_corr.py, its own process)"""
+    import re
+    import subprocess
+    import sys
+    here = os.path.dirname(os.path.dirname(os.path.abspath(__file__)))
+    args = [sys.executable, os.path.join(here, "dataurl_corr.py"), str(20260930 + run.seed)]
+    if run.tier == "quick" and not getattr(run, "escalated", False):
+        args.append("quick")
+    p = subprocess.run(args, stdout=subprocess.PIPE, stderr=subprocess.STDOUT, text=True, timeout=3000, env=dict(os.environ, PYTHONPATH=os.pathsep.join(x for x in sys.path if x)))
+    m = re.search(r"^disagreements: (\d+)", p.stdout, re.M)
+    if not m:
+        run.disagree("data-url", "harness/dataurl_corr.py", p.stdout[-800:], "n/a")
+        return
+    n = sum(int(x) for x in re.findall(r"^  \S.*?\s(\d+)$", p.stdout, re.M))
+    run.groups["base64 / data URL / guess_type / attribute serialisation vs Model/DataUrl.lean"] += n
+    run.evaluations += n
+    if int(m.group(1)):
+        for line in p.stdout.split("disagreements:")[1].splitlines()[1:8]:
+            run.disagree("data-url", line.strip()[:300], "real", "model")
+
+
 def correspondence(run):
+    dataurl_correspondence(run)
     rng = run.rng
     scratch = gen_site.scratch_root()
     try:
